@@ -65,6 +65,8 @@ Definition input_of (t : tok) : list input :=
   match t with
   | TS n =>
     if n =? "req_head" then [IReqHead]
+    else if n =? "req_head_body" then [IReqHeadBody]
+    else if n =? "req_body_end" then [IReqBodyEnd]
     else if n =? "connect_ok" then [IConnect None]
     else if n =? "req_sent" then [IReqSent]
     else if n =? "back_partial" then [IBackPartial]
@@ -97,7 +99,7 @@ Definition step_op (st : rstate) (op : list tok) : rstate * list tok :=
       match args with
       | [TN sst; TN ph; TN ka; TN fc; TN bc; TN pend; TN iw; TN ew] =>
         let s' := mkS (state_of sst) (s_attempts s) (zb fc) (phase_of ph) (zb bc) (zb pend) (zb ka)
-                      (s_origin s) (s_done s) (s_clean s) in
+                      (s_origin s) (s_done s) (s_clean s) (s_ropen s) in
         let c' := mkC (c_h2 c) (zb iw) (zb ew) (c_ftimer c) (c_btimer c) (c_closed c) in
         (mkr s' c', st_toks s' c')
       | _ => bad end
